@@ -501,3 +501,740 @@ func init() {
 		},
 	})
 }
+
+// ---------------------------------------------------------------- recursion: one call site, several receivers
+//
+// The same syntactic call site `x.m(...)` active several times at once with
+// different receivers: recursive (also mutually recursive) functions whose
+// body contains `acc.push(<expression that recursively calls the function with
+// another array>)`, the same with contains, chained pushes, receivers that are
+// themselves results of the recursion, pushes into sorted copies and loops
+// around the site; pop / popfirst / sort / length / [0] applied to what the
+// recursion returns.  A small evaluator over ideal lists (c09Val, c09Method)
+// predicts the whole output.
+
+type c15X struct {
+	k    string // num str var bin arr meth call idx asg raw
+	f    float64
+	s    string // variable / method / function name, operator, string text
+	a, b *c15X
+	args []*c15X
+}
+
+func c15Num(f float64) *c15X { return &c15X{k: "num", f: f} }
+func c15Var(n string) *c15X  { return &c15X{k: "var", s: n} }
+func c15Str(s string) *c15X  { return &c15X{k: "str", s: s} }
+func c15Bin(op string, a, b *c15X) *c15X {
+	return &c15X{k: "bin", s: op, a: a, b: b}
+}
+func c15Meth(recv *c15X, m string, args ...*c15X) *c15X {
+	return &c15X{k: "meth", s: m, a: recv, args: args}
+}
+func c15CallF(f string, args ...*c15X) *c15X { return &c15X{k: "call", s: f, args: args} }
+func c15ArrX(items ...*c15X) *c15X           { return &c15X{k: "arr", args: items} }
+func c15Idx(a *c15X, i float64) *c15X        { return &c15X{k: "idx", a: a, b: c15Num(i)} }
+
+func (e *c15X) text() string {
+	list := func(es []*c15X) string {
+		p := make([]string, len(es))
+		for i, x := range es {
+			p[i] = x.text()
+		}
+		return strings.Join(p, ", ")
+	}
+	switch e.k {
+	case "num":
+		return numLit(e.f)
+	case "str":
+		return mustStrLit(e.s)
+	case "var":
+		return e.s
+	case "bin":
+		return "(" + e.a.text() + " " + e.s + " " + e.b.text() + ")"
+	case "arr":
+		return "[" + list(e.args) + "]"
+	case "meth":
+		return e.a.text() + "." + e.s + "(" + list(e.args) + ")"
+	case "call":
+		return e.s + "(" + list(e.args) + ")"
+	case "idx":
+		return e.a.text() + "[" + e.b.text() + "]"
+	case "asg":
+		return e.s + " = " + e.a.text()
+	case "raw":
+		return e.s
+	}
+	panic("c15X " + e.k)
+}
+
+type c15S struct {
+	k          string // ifret do ret print forin
+	e          *c15X  // condition (ifret), expression (do, ret), iterable (forin)
+	ret        *c15X
+	args       []*c15X
+	v          string
+	body       []*c15S
+	thenB, elB []*c15S
+}
+
+func c15Stmts(ss []*c15S, ind string) string {
+	var sb strings.Builder
+	for _, s := range ss {
+		switch s.k {
+		case "ifret":
+			sb.WriteString(ind + "if " + s.e.text() + " { return " + s.ret.text() + " }\n")
+		case "do":
+			sb.WriteString(ind + s.e.text() + "\n")
+		case "ret":
+			sb.WriteString(ind + "return " + s.e.text() + "\n")
+		case "print":
+			p := make([]string, len(s.args))
+			for i, x := range s.args {
+				p[i] = x.text()
+			}
+			sb.WriteString(ind + "print " + strings.Join(p, ", ") + "\n")
+		case "forin":
+			sb.WriteString(ind + "for (" + s.v + " in " + s.e.text() + ") {\n" + c15Stmts(s.body, ind+"  ") + ind + "}\n")
+		}
+	}
+	return sb.String()
+}
+
+type c15F struct {
+	name   string
+	params []string
+	body   []*c15S
+}
+
+type c15Rec struct {
+	funcs   map[string]*c15F
+	globals map[string]*c09Cell
+	frames  []map[string]*c09Cell
+	out     strings.Builder
+	calls   int
+	retV    c09Val
+}
+
+var c15ErrRet = &c09Err{"return"}
+var c15ErrBudget = &c09Err{"budget"}
+
+func (in *c15Rec) cell(name string) *c09Cell {
+	if len(in.frames) > 0 {
+		if c, ok := in.frames[len(in.frames)-1][name]; ok {
+			return c
+		}
+	}
+	// dynamic scoping: the callers' frames, innermost first, then the globals
+	for i := len(in.frames) - 2; i >= 0; i-- {
+		if c, ok := in.frames[i][name]; ok {
+			return c
+		}
+	}
+	c, ok := in.globals[name]
+	if !ok {
+		c = &c09Cell{c09Unset}
+		in.globals[name] = c
+	}
+	return c
+}
+
+func (in *c15Rec) eval(e *c15X) (c09Val, error) {
+	switch e.k {
+	case "num":
+		return c09N(e.f), nil
+	case "str":
+		return c09S(e.s), nil
+	case "var":
+		return in.cell(e.s).v, nil
+	case "bin":
+		a, err := in.eval(e.a)
+		if err != nil {
+			return c09Null, err
+		}
+		b, err := in.eval(e.b)
+		if err != nil {
+			return c09Null, err
+		}
+		switch e.s {
+		case "-":
+			return c09N(a.num() - b.num()), nil
+		case "*":
+			return c09N(a.num() * b.num()), nil
+		case "+":
+			if a.k == 's' || b.k == 's' {
+				return c09S(a.str() + b.str()), nil
+			}
+			return c09N(a.num() + b.num()), nil
+		case "==":
+			c, err := c09Compare(a, b)
+			return c09B(c == 0), err
+		}
+		panic("c15 bin " + e.s)
+	case "arr":
+		vs := make([]c09Val, len(e.args))
+		for i, x := range e.args {
+			v, err := in.eval(x)
+			if err != nil {
+				return c09Null, err
+			}
+			vs[i] = v
+		}
+		return c09NewArr(vs...), nil
+	case "meth":
+		recv, err := in.eval(e.a)
+		if err != nil {
+			return c09Null, err
+		}
+		if recv.k != 'a' {
+			return c09Null, c09E("method %s on a value that is not an array", e.s)
+		}
+		args := make([]c09Val, len(e.args))
+		for i, x := range e.args {
+			v, err := in.eval(x)
+			if err != nil {
+				return c09Null, err
+			}
+			args[i] = v
+		}
+		return c09Method(e.s, recv, args)
+	case "idx":
+		base, err := in.eval(e.a)
+		if err != nil {
+			return c09Null, err
+		}
+		if base.k != 'a' {
+			return c09Null, c09E("index on a value that is not an array")
+		}
+		iv, err := in.eval(e.b)
+		if err != nil {
+			return c09Null, err
+		}
+		i, ok := c09Resolve(len(base.a.e), iv.num())
+		if !ok {
+			return c09Null, c09E("index before the start")
+		}
+		if i < len(base.a.e) {
+			return base.a.e[i].v, nil
+		}
+		return c09Null, nil
+	case "asg":
+		v, err := in.eval(e.a)
+		if err != nil {
+			return c09Null, err
+		}
+		in.cell(e.s).v = v
+		return v, nil
+	case "raw":
+		// $.name
+		return in.globals["$"].v.o.m[e.s[2:]].v, nil
+	case "call":
+		f := in.funcs[e.s]
+		args := make([]c09Val, len(e.args))
+		for i, x := range e.args {
+			v, err := in.eval(x)
+			if err != nil {
+				return c09Null, err
+			}
+			args[i] = v
+		}
+		in.calls++
+		if in.calls > 600 || in.out.Len() > 10000 {
+			return c09Null, c15ErrBudget
+		}
+		fr := map[string]*c09Cell{}
+		for i, p := range f.params {
+			if i < len(args) {
+				fr[p] = &c09Cell{args[i]}
+			} else {
+				fr[p] = &c09Cell{c09Null}
+			}
+		}
+		in.frames = append(in.frames, fr)
+		err := in.exec(f.body)
+		in.frames = in.frames[:len(in.frames)-1]
+		if err == c15ErrRet {
+			return in.retV, nil
+		}
+		return c09Null, err
+	}
+	panic("c15 eval " + e.k)
+}
+
+// c15Small: does rendering v visit at most *budget nodes (an array reachable along many paths is visited once per path)?
+func c15Small(v c09Val, roots []c09Val, budget *int) bool {
+	*budget--
+	if *budget < 0 {
+		return false
+	}
+	if v.k != 'a' {
+		return true
+	}
+	for _, r := range roots {
+		if c09Same(r, v) {
+			return true
+		}
+	}
+	nr := append(append([]c09Val{}, roots...), v)
+	for _, c := range v.a.e {
+		if !c15Small(c.v, nr, budget) {
+			return false
+		}
+	}
+	return true
+}
+
+func (in *c15Rec) exec(ss []*c15S) error {
+	for _, s := range ss {
+		switch s.k {
+		case "ifret":
+			c, err := in.eval(s.e)
+			if err != nil {
+				return err
+			}
+			if c.truthy() {
+				v, err := in.eval(s.ret)
+				if err != nil {
+					return err
+				}
+				in.retV = v
+				return c15ErrRet
+			}
+		case "do":
+			if _, err := in.eval(s.e); err != nil {
+				return err
+			}
+		case "ret":
+			v, err := in.eval(s.e)
+			if err != nil {
+				return err
+			}
+			in.retV = v
+			return c15ErrRet
+		case "print":
+			parts := make([]string, len(s.args))
+			vals := make([]c09Val, len(s.args))
+			for i, x := range s.args {
+				v, err := in.eval(x)
+				if err != nil {
+					return err
+				}
+				vals[i] = v
+			}
+			for i, v := range vals {
+				// shared sub-arrays are rendered once per path: keep the tree small
+				budget := 500
+				if !c15Small(v, nil, &budget) {
+					return c15ErrBudget
+				}
+				parts[i] = c09Pretty(v, false)
+			}
+			in.out.WriteString(strings.Join(parts, " ") + "\n")
+		case "forin":
+			it, err := in.eval(s.e)
+			if err != nil {
+				return err
+			}
+			if it.k != 'a' {
+				return c09E("not iterable")
+			}
+			loc := in.cell(s.v)
+			for _, c := range append([]*c09Cell{}, it.a.e...) {
+				loc.v = c.v
+				if err := in.exec(s.body); err != nil {
+					return err
+				}
+			}
+		}
+	}
+	return nil
+}
+
+const c15RecDoc = `{"g": [7, 8], "pool": [[1], [2, 2], [], [4], [5, 5, 5], [6], [7]]}`
+
+// c15RecProgram builds one random recursive program; ok=false when its run would be too long
+func c15RecProgram(r *rand.Rand, depth int) (text, class, out string, ok bool) {
+	acc, n := c15Var("acc"), c15Var("n")
+	nf := 1
+	if chance(r, 0.3) {
+		nf = 2
+	}
+	names := []string{"build", "walk"}[:nf]
+	branching := 0
+	rec := func(self int) *c15X {
+		callee := names[self]
+		if nf == 2 && chance(r, 0.7) {
+			callee = names[1-self]
+		}
+		var other *c15X
+		switch r.Intn(11) {
+		case 0, 1:
+			other = c15ArrX(c15Bin("*", n, c15Num(10)))
+		case 2:
+			other = c15ArrX()
+		case 3:
+			other = c15ArrX(n, c15Meth(acc, "length"))
+		case 4:
+			other = c15Var("g1")
+		case 5, 6:
+			other = &c15X{k: "idx", a: c15Var("pool"), b: n}
+		case 7:
+			other = c15Meth(acc, "sort")
+		case 8:
+			other = c15ArrX(acc)
+		case 9:
+			other = acc
+		default:
+			other = c15ArrX(c15Num(float64(r.Intn(5))), c15Num(float64(r.Intn(5))))
+		}
+		branching++
+		return c15CallF(callee, other, c15Bin("-", n, c15Num(1)))
+	}
+	wrap := func(x *c15X) *c15X {
+		switch r.Intn(12) {
+		case 0, 1, 2:
+			return c15Meth(x, "length")
+		case 3:
+			return c15Idx(x, 0)
+		case 4:
+			return c15Meth(x, "pop")
+		case 5:
+			return c15Meth(x, "popfirst")
+		case 6:
+			return c15Meth(x, "contains", n)
+		case 7:
+			return c15Meth(c15Meth(x, "sort"), "length")
+		case 8, 9:
+			return x
+		case 10:
+			return c15Meth(c15Meth(x, "push", n), "length")
+		default:
+			return c15Meth(x, "sort")
+		}
+	}
+	num := func(x *c15X) *c15X { // a number out of the recursion's result (contains compares it with the elements)
+		if chance(r, 0.3) {
+			return c15Meth(c15Meth(x, "push", n), "length")
+		}
+		return c15Meth(x, "length")
+	}
+	funcs := map[string]*c15F{}
+	var order []*c15F
+	for fi, name := range names {
+		f := &c15F{name: name, params: []string{"acc", "n", "x"}}
+		base := acc
+		if chance(r, 0.15) {
+			base = c15ArrX(n)
+		}
+		f.body = append(f.body, &c15S{k: "ifret", e: c15Bin("==", n, c15Num(0)), ret: base})
+		if chance(r, 0.3) {
+			f.body = append(f.body, &c15S{k: "print", args: []*c15X{c15Str("in " + name), n, acc}})
+		}
+		nSites := 1 + r.Intn(2)
+		for si := 0; si < nSites; si++ {
+			kind := r.Intn(12)
+			if si == 0 && kind > 8 && chance(r, 0.7) {
+				kind = 0 // the plain seeded shape most of the time
+			}
+			switch kind {
+			case 0, 1, 2, 3:
+				f.body = append(f.body, &c15S{k: "do", e: c15Meth(acc, "push", wrap(rec(fi)))})
+			case 4:
+				f.body = append(f.body, &c15S{k: "print", args: []*c15X{c15Str("c"), n, c15Meth(acc, "contains", num(rec(fi)))}})
+			case 5:
+				f.body = append(f.body, &c15S{k: "do", e: c15Meth(c15Meth(acc, "push", wrap(rec(fi))), "push", wrap(rec(fi)))})
+			case 6:
+				f.body = append(f.body, &c15S{k: "do", e: c15Meth(rec(fi), "push", c15Meth(acc, "length"))})
+			case 7:
+				f.body = append(f.body, &c15S{k: "forin", v: "x", e: c15ArrX(c15Num(1), c15Num(2)), body: []*c15S{{k: "do", e: c15Meth(acc, "push", wrap(rec(fi)))}}})
+				branching++
+			case 8:
+				f.body = append(f.body, &c15S{k: "do", e: c15Meth(c15Meth(acc, "sort"), "push", wrap(rec(fi)))})
+			case 9:
+				f.body = append(f.body, &c15S{k: "do", e: c15Meth(acc, "push", c15Bin("+", num(rec(fi)), num(rec(fi))))})
+			case 10:
+				f.body = append(f.body, &c15S{k: "do", e: c15Meth(c15Var("g1"), "push", wrap(rec(fi)))})
+			default:
+				f.body = append(f.body, &c15S{k: "print", args: []*c15X{c15Str("l"), n, c15Meth(c15Meth(acc, "push", wrap(rec(fi))), "length"), c15Meth(acc, "length")}})
+			}
+			if chance(r, 0.25) {
+				f.body = append(f.body, &c15S{k: "do", e: c15Meth(acc, "push", n)})
+			}
+		}
+		if chance(r, 0.4) {
+			f.body = append(f.body, &c15S{k: "print", args: []*c15X{c15Str("out " + name), n, acc, c15Meth(acc, "length")}})
+		}
+		f.body = append(f.body, &c15S{k: "ret", e: acc})
+		funcs[name] = f
+		order = append(order, f)
+	}
+	var initArr *c15X
+	switch r.Intn(4) {
+	case 0:
+		initArr = c15ArrX()
+	case 1:
+		initArr = c15ArrX(c15Num(100))
+	case 2:
+		initArr = c15Var("g1")
+	default:
+		initArr = c15ArrX(c15Num(3), c15Num(1), c15Num(2))
+	}
+	main := []*c15S{
+		{k: "do", e: &c15X{k: "asg", s: "g1", a: &c15X{k: "raw", s: "$.g"}}},
+		{k: "do", e: &c15X{k: "asg", s: "pool", a: &c15X{k: "raw", s: "$.pool"}}},
+		{k: "print", args: []*c15X{c15Str("r"), c15CallF(names[0], initArr, c15Num(float64(depth)))}},
+		{k: "print", args: []*c15X{c15Str("g"), c15Var("g1"), c15Var("pool")}},
+		{k: "print", args: []*c15X{c15Str("again"), c15CallF(names[nf-1], c15ArrX(), c15Num(float64(depth-1)))}},
+		{k: "print", args: []*c15X{c15Str("g"), c15Var("g1"), c15Var("pool")}},
+	}
+	var sb strings.Builder
+	for _, f := range order {
+		sb.WriteString("function " + f.name + "(" + strings.Join(f.params, ", ") + ") {\n" + c15Stmts(f.body, "  ") + "}\n")
+	}
+	sb.WriteString("{\n" + c15Stmts(main, "  ") + "}\n")
+	in := &c15Rec{funcs: funcs, globals: map[string]*c09Cell{}}
+	root := c09Decode(c15RecDoc)
+	in.globals["$"] = &c09Cell{root}
+	err := in.exec(main)
+	if err == c15ErrBudget {
+		return "", "", "", false
+	}
+	class = "ok"
+	if err != nil {
+		class = "runtime"
+	}
+	return sb.String(), class, in.out.String(), true
+}
+
+// ---------------------------------------------------------------- long histories
+//
+// Arrays of 60-5000 elements (from the document, from a literal, built by
+// pushes, a sorted copy, living in another container) popped / popfirst-ed
+// down to empty in phases, with pushes interleaved around the quarter and half
+// marks of the capacities 64 128 256 1024 4096; the k-th removal must return
+// the element the ideal list gives and leave its length, first and last
+// element -- printed at every step (short arrays) or at sampled steps and at
+// every step near a mark (long ones); sums over the whole array between phases.
+
+type c15Hist struct {
+	sb   strings.Builder // program body
+	out  strings.Builder // expected output
+	list []float64
+	next float64 // next fresh value to push
+	name string  // how the program names the array
+}
+
+func (h *c15Hist) show(tag string, v string) {
+	if len(h.list) > 0 {
+		fmt.Fprintf(&h.out, "%s %s %d %s %s\n", tag, v, len(h.list), c09Fmt(h.list[0]), c09Fmt(h.list[len(h.list)-1]))
+	} else {
+		fmt.Fprintf(&h.out, "%s %s 0\n", tag, v)
+	}
+}
+
+// remove: count removals by pop / popfirst, shown when (step % every == 0) or the length is within 2 of a mark
+func (h *c15Hist) remove(m string, count, every int) {
+	fmt.Fprintf(&h.sb, "  for (i = 0; i < %d; i++) { v = %s.%s(); n = %s.length(); if (i %% %d == 0 || near(n)) show(\"%s\", v, %s) }\n", count, h.name, m, h.name, every, m, h.name)
+	for i := 0; i < count; i++ {
+		v := "null"
+		if len(h.list) > 0 {
+			if m == "pop" {
+				v = c09Fmt(h.list[len(h.list)-1])
+				h.list = h.list[:len(h.list)-1]
+			} else {
+				v = c09Fmt(h.list[0])
+				h.list = h.list[1:]
+			}
+		}
+		if i%every == 0 || c15Near(len(h.list)) {
+			h.show(m, v)
+		}
+	}
+}
+
+func (h *c15Hist) push(count int) {
+	fmt.Fprintf(&h.sb, "  for (i = 0; i < %d; i++) { %s.push(%s + i) }\n  show(\"push\", %d, %s)\n", count, h.name, c09Fmt(h.next), count, h.name)
+	for i := 0; i < count; i++ {
+		h.list = append(h.list, h.next+float64(i))
+	}
+	h.next += float64(count)
+	h.show("push", fmt.Sprint(count))
+}
+
+func (h *c15Hist) sum() {
+	fmt.Fprintf(&h.sb, "  s = 0; for (e in %s) { s += e }\n  print \"sum\", s, %s.length()\n", h.name, h.name)
+	t := 0.0
+	for _, x := range h.list {
+		t += x
+	}
+	fmt.Fprintf(&h.out, "sum %s %d\n", c09Fmt(t), len(h.list))
+}
+
+var c15Marks = []int{16, 32, 64, 128, 256, 512, 1024, 2048, 4096}
+
+func c15Near(n int) bool {
+	for _, m := range c15Marks {
+		if n >= m-2 && n <= m+2 {
+			return true
+		}
+	}
+	return n <= 2
+}
+
+const c15HistFuncs = "function near(n) {\n  for (m in [16, 32, 64, 128, 256, 512, 1024, 2048, 4096]) { if (n >= m - 2 && n <= m + 2) { return true } }\n  return n <= 2\n}\n" +
+	"function show(t, v, a) {\n  if (a.length() > 0) { print t, v, a.length(), a[0], a[-1] } else { print t, v, 0 }\n}\n"
+
+func c15HistProgram(r *rand.Rand, n int) (prog, doc, want string) {
+	h := &c15Hist{next: 100000}
+	vals := make([]float64, n)
+	txt := make([]string, n)
+	for i := range vals {
+		vals[i] = float64(i + 1)
+		if chance(r, 0.1) {
+			vals[i] += 0.5
+		}
+		txt[i] = c09Fmt(vals[i])
+	}
+	h.list = append([]float64{}, vals...)
+	doc = "{}"
+	var setup string
+	h.name = "a"
+	switch r.Intn(7) {
+	case 0: // the document's own array, named in full each time
+		doc = `{"items": [` + strings.Join(txt, ", ") + `]}`
+		h.name = "$.items"
+	case 1: // the document's array through a variable
+		doc = `{"o": {"items": [` + strings.Join(txt, ",") + `]}}`
+		setup = "  a = $.o.items\n"
+	case 2: // a literal
+		setup = "  a = [" + strings.Join(txt, ", ") + "]\n"
+	case 3: // built by pushes
+		all := true
+		for i, v := range vals {
+			if v != float64(i+1) {
+				all = false
+			}
+		}
+		if all {
+			setup = fmt.Sprintf("  a = []\n  for (i = 1; i <= %d; i++) { a.push(i) }\n", n)
+		} else {
+			setup = "  src = [" + strings.Join(txt, ", ") + "]\n  a = []\n  for (e in src) { a.push(e) }\n"
+		}
+	case 4: // a sorted copy (of a reversed literal)
+		rev := make([]string, n)
+		for i := range txt {
+			rev[n-1-i] = txt[i]
+		}
+		setup = "  a = [" + strings.Join(rev, ", ") + "].sort()\n"
+	case 5: // inside another container
+		setup = "  h = {list: [" + strings.Join(txt, ", ") + "]}\n"
+		h.name = "h.list"
+	default: // built by an index store past the end, then filled
+		setup = fmt.Sprintf("  a = []\n  a[%d] = 0\n  for (i = 0; i < %d; i++) { a[i] = i + 1 }\n", n-1, n)
+		for i := range h.list {
+			h.list[i] = float64(i + 1)
+		}
+	}
+	h.sb.WriteString(setup)
+	every := 1
+	if n > 300 {
+		every = 5 + r.Intn(40)
+	}
+	// the marks the array will cross on its way down, largest first
+	var marks []int
+	for _, c := range []int{4096, 1024, 256, 128, 64} {
+		for _, m := range []int{c / 2, c / 4} {
+			if m < n {
+				marks = append(marks, m)
+			}
+		}
+	}
+	h.show("start", "0")
+	fmt.Fprintf(&h.sb, "  show(\"start\", 0, %s)\n", h.name)
+	if chance(r, 0.5) {
+		// pushes onto the array as it came (a literal's / document's backing storage is exactly full)
+		h.push(1 + r.Intn(4))
+	}
+	if chance(r, 0.5) {
+		h.sum()
+	}
+	for _, m := range marks {
+		if len(h.list) <= m {
+			continue
+		}
+		meth := pick(r, []string{"pop", "pop", "pop", "popfirst"})
+		// down to just above the mark, a few pushes, then across it
+		above := m + r.Intn(4)
+		if d := len(h.list) - above; d > 0 {
+			h.remove(meth, d, every)
+		}
+		if chance(r, 0.6) {
+			h.push(r.Intn(6))
+		}
+		if chance(r, 0.3) {
+			h.sum()
+		}
+		h.remove(pick(r, []string{"pop", "pop", "popfirst"}), len(h.list)-m+1+r.Intn(3), 1)
+		if chance(r, 0.3) {
+			h.push(1 + r.Intn(2*m))
+		}
+	}
+	h.sum()
+	h.remove(pick(r, []string{"pop", "pop", "popfirst"}), len(h.list)+2, every) // to empty and beyond
+	if chance(r, 0.6) {
+		// grow again from empty and take everything off once more
+		k := 65 + r.Intn(80)
+		h.push(k)
+		h.remove("pop", k/2, 1)
+		h.sum()
+		h.remove(pick(r, []string{"pop", "popfirst"}), len(h.list)+1, 1)
+	}
+	return c15HistFuncs + "{\n" + h.sb.String() + "}\n", doc, h.out.String()
+}
+
+func init() {
+	register(Family{
+		Name: "recursive-call-sites", Prop: "C15",
+		Rule: "the same syntactic call site `x.m(...)` active several times at once with different receivers: recursive and mutually recursive functions (depth 2-6) whose body holds `acc.push(<expression that calls the function again with another array>)`, the same under contains, chained pushes, a + of two recursions, a loop around the site, a push into a sorted copy, into a global array, and with the receiver itself being the recursion's result; the other array is a fresh literal, a global from the document, an element of a global pool, a sorted copy, [acc] or acc itself; the inner result is used as is or through length [0] pop popfirst contains sort push; every level may print; oracle (implementation only): an evaluator over ideal lists predicts class and the whole output; also compared with the model",
+		Gen: func(r *rand.Rand, tier string, emit func(Case)) {
+			n := tierN(tier, 1500, 25000)
+			for i := 0; i < n; i++ {
+				depth := 2 + r.Intn(5)
+				text, class, out, ok := c15RecProgram(r, depth)
+				for !ok {
+					if depth > 2 {
+						depth--
+					}
+					text, class, out, ok = c15RecProgram(r, depth)
+				}
+				emit(Case{Req: RunReq(text, nil, []File{{Name: "in.json", Data: []byte(c15RecDoc)}}, false), Fields: []string{"class", "out"},
+					Meta:   metaProg(text, "input", c15RecDoc, "depth", fmt.Sprint(depth), "ideal_class", class, "row", fmt.Sprintf("depth %d", depth)),
+					Oracle: c09IdealOracle(class, out, "", false), NonTrivial: c09NT})
+			}
+		},
+	})
+	register(Family{
+		Name: "long-histories", Prop: "C15",
+		Rule: "arrays of 60-5000 elements (the document's own array named in full or through a variable, a literal, built by pushes, a sorted copy, inside another container, filled after an index store past the end) taken apart by pop / popfirst in phases down to empty and two steps beyond, with 0-5 pushes just above and larger bursts just below each quarter and half mark of the capacities 64 128 256 1024 4096, then grown again from empty and emptied once more; the removed value, length, first and last element are printed at every step (arrays up to 300) or every 5th-45th step and at every step within 2 of a power of two, sums over the whole array between phases; oracle (implementation only): the ideal list predicts the whole output; also compared with the model",
+		Gen: func(r *rand.Rand, tier string, emit func(Case)) {
+			sizes := []int{60, 63, 64, 65, 66, 70, 100, 127, 128, 129, 130, 200, 255, 256, 257, 300}
+			big := []int{511, 512, 513, 1000, 1023, 1024, 1025, 1100, 2048, 2049, 3000, 4095, 4096, 4097, 5000}
+			n := tierN(tier, 110, 1500)
+			for i := 0; i < n; i++ {
+				size := pick(r, sizes)
+				if chance(r, 0.3) {
+					size = 60 + r.Intn(260)
+				}
+				if i%6 == 5 {
+					size = pick(r, big)
+					if chance(r, 0.3) {
+						size = 500 + r.Intn(4500)
+					}
+				}
+				prog, doc, want := c15HistProgram(r, size)
+				emit(Case{Req: RunReq(prog, nil, []File{{Name: "in.json", Data: []byte(doc)}}, false), Fields: []string{"class", "out"},
+					Meta:   metaProg(short(prog), "size", fmt.Sprint(size)),
+					Oracle: c09IdealOracle("ok", want, "", false), NonTrivial: c09NT})
+			}
+		},
+	})
+}
